@@ -90,12 +90,30 @@ def Uniq (sel : Key → Int) (ks : List Key) : Prop :=
 
 /-! ### well-formed inputs, reachable states -/
 
+/-- the parameter's type as its port declares it: float if the port's name mentions `:f`,
+    else a toggle if it mentions `:T`, else integer -/
+def portType (p : PortInfo F) : Char := if p.hasF then 'f' else if p.hasT then 'T' else 'i'
+
+/-- the declared range of a port, as `float`s: 0..1 for a toggle, `min`..`max` otherwise; a
+    log-scale port that declares `logmin` starts there -/
+def portRange (A : Arith F) (p : PortInfo F) : Option (F × F) :=
+  if portType p = 'T' then some (A.zero, A.one)
+  else match p.min, p.max with
+    | some mn, some mx =>
+      some (if p.scaleLog then (p.logmin.map A.to32).getD (A.to32 mn) else A.to32 mn, A.to32 mx)
+    | _, _ => none
+
 /-- ranges are not empty: min <= max, and logmin <= max when given; a toggle port
-    (`:T` and no `:f` in its name) does not declare a logarithmic scale -/
+    (`:T` and no `:f` in its name) does not declare a logarithmic scale; the lower end of the
+    range of a logarithmic-scale port — `logmin` if declared, else `min`, as the `float` the code
+    passes to `logf` (`portRange`) — is positive (`logf` of zero or of a negative number is
+    -infinity / NaN, which this model does not represent; `log_scale_needs_positive_bound`
+    in Props/C19.lean shows what an arithmetic that extends `logf` below zero makes of such a port) -/
 def PortWF (A : Arith F) (p : PortInfo F) : Prop :=
   (∀ mn mx, p.min = some mn → p.max = some mx →
     A.le mn mx = true ∧ (∀ l, p.logmin = some l → A.le l mx = true)) ∧
-  (p.hasF = false → p.hasT = true → p.scaleLog = false)
+  (p.hasF = false → p.hasT = true → p.scaleLog = false) ∧
+  (p.scaleLog = true → ∀ lo hi, portRange A p = some (lo, hi) → A.le lo A.zero = false)
 
 /-- MIDI channel and controller numbers are not negative; bound ports have non-empty ranges;
     an address fits the 128-byte `param_path` buffer (a longer one is cut off by the code) -/
@@ -116,19 +134,6 @@ inductive Reachable (A : Arith F) (nslots perSlot : Nat) : Mgr F → Prop
 /-! ### what may be emitted -/
 
 /-! #### the specification: stated about the PORT that was bound, not about the automation -/
-
-/-- the parameter's type as its port declares it: float if the port's name mentions `:f`,
-    else a toggle if it mentions `:T`, else integer -/
-def portType (p : PortInfo F) : Char := if p.hasF then 'f' else if p.hasT then 'T' else 'i'
-
-/-- the declared range of a port, as `float`s: 0..1 for a toggle, `min`..`max` otherwise; a
-    log-scale port that declares `logmin` starts there -/
-def portRange (A : Arith F) (p : PortInfo F) : Option (F × F) :=
-  if portType p = 'T' then some (A.zero, A.one)
-  else match p.min, p.max with
-    | some mn, some mx =>
-      some (if p.scaleLog then (p.logmin.map A.to32).getD (A.to32 mn) else A.to32 mn, A.to32 mx)
-    | _, _ => none
 
 /-- what the property allows to be sent for the parameter `p` bound under the address `path`:
     exactly that address, the parameter's type, and a value inside the declared range
@@ -258,7 +263,8 @@ structure Laws (A : Arith F) : Prop where
   to32_zero : A.to32 A.zero = A.zero
   roundf_mono : ∀ x y, A.le x y = true → A.le (A.roundf x) (A.roundf y) = true
   toInt_mono : ∀ x y, A.le x y = true → A.toInt x ≤ A.toInt y
-  logf_mono : ∀ x y, A.le x y = true → A.le (A.logf x) (A.logf y) = true
+  /-- `logf` is monotone on positive arguments (the only ones `PortWF` lets reach it) -/
+  logf_mono : ∀ x y, A.le x A.zero = false → A.le x y = true → A.le (A.logf x) (A.logf y) = true
   expf_mono : ∀ x y, A.le x y = true → A.le (A.expf x) (A.expf y) = true
 
 /-! ### exact arithmetic (no rounding) over `Rat`, for the linear-map claim -/
